@@ -119,7 +119,7 @@ static unsigned agent_pid; static unsigned char skip_key[4], skip_val[4];
 static const char *EP_NAME[3] = {"168.63.129.16:80", "169.254.169.254:80", "168.63.129.16:32526"};
 static uint32_t EP_IP[3]; static uint16_t EP_PORT[3] = {80, 80, 32526};
 
-static long n_states, n_trans, n_viol, n_configs, n_connects_checked, n_divert_expected, n_unspecified;
+static long n_states, n_trans, n_viol, n_configs, n_connects_checked, n_divert_expected, n_unspecified, n_straddled_checked;
 static int max_viol_print = 40;
 
 static void load_world(struct world *w) { memcpy(vt_maps, w->maps, sizeof(vt_maps)); }
@@ -167,6 +167,22 @@ static void check_connect(struct world *w, struct thread *th, struct conn *c, ui
            changed: not judged (a record it may have produced is remembered so that the invariant holds) */
         n_unspecified++;
         if (sport) w->diverted_ports[w->ndiv++] = sport;
+        /* one thing is defined all the same: the two hooks act on one decision. A connect the first hook diverted to the
+           proxy listener (the address was listed then) carries its record - the proxy refuses a connection without one */
+        if (sport && !th->is_agent && c->proto == 6 && th->matched_at_connect4 && !th->handoff_failed
+            && th->ctx.user_ip4 == inet_addr("127.0.0.1") && th->ctx.user_port == htons(3080)) {
+            unsigned char k[8]; audit_key_of(sport, k);
+            sock_addr_audit_entry *e = vt_lookup(&audit_map, 8, 20, 200, 9, k);
+            char what[256];
+            n_straddled_checked++;
+            if (!e) {
+                snprintf(what, sizeof what, "connect from source port %u was diverted to the proxy by the first hook, the policy changed before the second hook ran, and no audit record was written", sport);
+                violation("record-missing:policy-changed-between-the-hooks", what, w);
+            } else if (e->logon_id != th->id.uid || e->process_id != th->id.tgid || e->destination_ipv4 != c->ip || e->destination_port != (uint32_t)htons(c->port)) {
+                snprintf(what, sizeof what, "connect from source port %u diverted by the first hook while the policy changed: record (user %u, pid %u, %08x:%04x) is not the caller's (user %u, pid %u, %08x:%04x)", sport, e->logon_id, e->process_id, e->destination_ipv4, e->destination_port, th->id.uid, th->id.tgid, c->ip, htons(c->port));
+                violation("record-wrong:policy-changed-between-the-hooks", what, w);
+            }
+        }
         return;
     }
     n_connects_checked++;
@@ -492,6 +508,25 @@ int main(int argc, char **argv) {
             }
         }
     }
+    /* the policy changes while a connect is between the two hook points (both tiers): one and two threads, one connect each,
+       one policy toggle of any endpoint at any point of the schedule */
+    long n_toggle_cfg = 0;
+    for (int pi = 0; pi < npol; pi++) for (int nth = 1; nth <= 2; nth++) for (int a = 0; a < nids; a++) for (int b = (nth == 2 ? a + 1 : nids - 1); b < nids; b += 2)
+        for (int d1 = 0; d1 < nd; d1 += 2) for (int d2 = 0; d2 < (nth == 2 ? nd : 1); d2 += 4) for (int tg = 0; tg < 3; tg++) {
+            if (nth == 2 && ids[a].tgid == ids[b].tgid && ids[a].tid == ids[b].tid) continue;
+            struct world w; memset(&w, 0, sizeof w);
+            memset(vt_maps, 0, sizeof vt_maps);
+            vt_update(&skip_process_map, 4, 4, 10, 1, skip_key, skip_val);
+            set_policy(policies[pi]);
+            (void)vt_lookup(&audit_map, 8, 20, 200, 9, "\0\0\0\0\0\0\0\0"); (void)vt_lookup(&local_map, 8, 24, 200, 9, "\0\0\0\0\0\0\0\0");
+            save_world(&w);
+            w.nth = nth; w.policy_bits = policies[pi]; w.next_sport = 40001; w.toggles_left = 1; w.toggle_ep = tg;
+            int tids[2] = {a, b};
+            for (int t = 0; t < nth; t++) { w.th[t].id = ids[tids[t]]; w.th[t].is_agent = ids[tids[t]].tgid == agent_pid; w.th[t].nconn = 1; w.th[t].c[0] = dests[t == 0 ? d1 : d2]; }
+            n_configs++; n_toggle_cfg++;
+            explore(&w);
+        }
+    printf("STAT policy_toggle_configurations %ld\n", n_toggle_cfg);
     /* the audit map is full of records nobody picked up (the agent was down, callers gave up): a protected
        connect must still get its record (the declared LRU map recycles the least recently used element) */
     for (int pi = 0; pi < 3; pi++) for (int a = 1; a < 5; a++) for (int d = 0; d < 6; d += 2) {
@@ -550,6 +585,7 @@ int main(int argc, char **argv) {
     }
     printf("STAT handoff_update_failure_connects %ld\n", n_upfail);
     printf("STAT connects_not_judged_policy_changed_between_hooks %ld\n", n_unspecified);
+    printf("STAT diverted_connects_with_policy_change_between_hooks_checked_for_their_record %ld\n", n_straddled_checked);
     printf("STAT configurations %ld\nSTAT states %ld\nSTAT transitions %ld\nSTAT connects_checked %ld\nSTAT diverts_expected %ld\nSTAT helper_calls %ld\nSTAT violations %ld\n", n_configs, n_states, n_trans, n_connects_checked, n_divert_expected, vt_helper_calls, n_viol);
     printf("STAT fine_configurations %ld\nSTAT fine_executions %ld\nSTAT fine_steps %ld\nSTAT fine_max_preemptions %ld\n", n_fine_configs, n_fine_exec, n_fine_steps, n_fine_maxpre);
     for (int i = 0; i < nseen; i++) printf("VIOLCOUNT %s %ld\n", seen[i].sig, seen[i].count);
